@@ -17,19 +17,37 @@ META = {
     "side, pixel edges at exactly the anchor fraction, floating origin exact, n >= 1; shape branch: exact shape, "
     "pixel size span/shape, the box is the region translated by less than one pixel (not at all when "
     "floating/tight); from_geopolygon reduces to from_bbox of the vertex bounds and contains every vertex up to tol.  "
+    "Growth round: the ARGUMENT GLUE in front of that core is modelled too (Model/C08Args.lean, Props/C08Args.lean): res_ "
+    "(number -> (r,-r) also for negative r, Resolution as is, other types ValueError), shape_ (Shape2d, XY and sequences "
+    "through int() truncation, wrong length / other types ValueError), the number-shape dispatch (any int/float/bool, "
+    "overrides resolution= before it is validated), resolution= given means shape= is not even validated, _norm_anchor on "
+    "unknown / unhashable values (KeyError / TypeError, before anything else), _norm_bbox (tuple / list / CRS-less "
+    "BoundingBox / BoundingBox with CRS, wrong tuple length; crs None / falsy / 'utm*' / given) and which CRS the result "
+    "reports (a BoundingBox with CRS wins over the crs argument, also over 'utm'), from_geopolygon's crs argument (None / "
+    "Unset keep the polygon's CRS, lon/lat for a CRS-less polygon; given CRS projects the vertices; CRS-less polygon + crs "
+    "is a ValueError after the align handling); every public spelling is proved to reduce to the numeric core, and an "
+    "end-to-end theorem (from_bbox_public_res) goes from the public arguments to cover / minimal / pixel size / CRS with "
+    "no hypothesis in between.  Compositions with C02 (Props/C08C02.lean): the result's public accessors -- .boundingbox "
+    "covers the region up to tol and is minimal, .alignment IS the anchor fraction times the pixel size (and the "
+    "deprecated align= of from_geopolygon is what .alignment reports), .resolution is the requested one.  "
     "Model and /repo are compared exactly on every run (quotient-constructed dyadic operands, exhaustive at the "
-    "tolerance edges, spans from sub-pixel to 2^20 pixels) and the predicates are re-evaluated with Fractions on "
-    "arbitrary doubles (1e-6..1e8).",
+    "tolerance edges, spans from sub-pixel to 2^20 pixels; every argument spelling incl. rejected ones with the "
+    "projection substituted at the public to_crs methods; accessors .alignment/.boundingbox of the real object against "
+    "C02's model of them) and the predicates are re-evaluated with Fractions on arbitrary doubles (1e-6..1e8), on the "
+    "accessors, and two-sided against the canonical object spelling of the same call.",
     "note": "Trusted: Lean kernel + {propext, Classical.choice, Quot.sound}; IEEE rounding in x0/res is not modelled "
-    "(theorems over exact rationals, doubles sampled with 1e-9 relative slack); CRS handling of from_bbox / "
-    "from_geopolygon (to_crs, utm shortcut) is outside the model; the strict 'less than one pixel + tol' bound "
-    "excludes the degenerate zero-width region with tol = 0 (equality there, proved and replayed).",
-    "inventory_not_modelled": "geobox.py / math.py parts of the anchors without a Lean mirror in Model/C08: the real projection "
-    "(pyproj) behind crs='utm*' and from_geopolygon(crs=other) -- modelled with the projection as a parameter (fromBboxUtm, "
-    "fromGeopolygonCrs), exact correspondence with a substituted affine projection, real pyproj by the independent-projection "
-    "oracle; CRS bookkeeping of _norm_bbox (default epsg:4326, which UTM zone); densification options of to_crs; numeric "
-    "spelling coercions (float()) -- oracle only; non-finite coordinates; zoom_out / zoom_to(shape) live in Model/C02 "
-    "(zoom_to(resolution=) is linked to C08.fromBbox by theorem zoom_to_resolution_is_from_bbox).",
+    "(theorems over exact rationals, doubles sampled with 1e-9 relative slack); the projection itself (pyproj) and which "
+    "CRS a 'utm*' string resolves to (norm_crs, C11) are parameters of the model; the strict 'less than one pixel + tol' bound "
+    "excludes the degenerate zero-width region with tol = 0 (equality there, proved and replayed).  Direct comparisons of "
+    "the private helper _norm_anchor are soft (a difference is a note; the public entry points decide).",
+    "inventory_not_modelled": "geobox.py / math.py / types.py parts of the anchors without a Lean mirror in Model/C08*: the real "
+    "projection (pyproj) behind crs='utm*' and from_geopolygon(crs=other) -- parameter of the model, exact correspondence with a "
+    "substituted affine projection, real pyproj by the independent-projection oracle; the UTM zone choice (C11); densification "
+    "options of to_crs; float() coercions of numpy scalars / 0-d arrays in bbox, anchor and tol (oracle only: "
+    "result-depends-on-numeric-spelling); non-finite coordinates (AssertionError / OverflowError from floor/ceil, probed "
+    "by hand, not modelled); a str given as shape is iterated digit by digit (driven as the sequence it amounts to); CRS "
+    "objects whose truth value is False; zoom_out / zoom_to(shape) live in Model/C02 (zoom_to(resolution=) is linked to "
+    "C08.fromBbox by theorem zoom_to_resolution_is_from_bbox).",
     "technique": "Lean 4 proof over hand model + exhaustive/random differential correspondence with real code",
     "design_ref": "DESIGN.md §4 C08",
 }
@@ -41,8 +59,10 @@ TOLS = [F(1, 4), F(0.01), F(1e-3), F(1e-4), TOL6, F(0)]
 def _import():
     from odc.geo import geobox as GB
     from odc.geo import geom, resxy_, xy_
-    from odc.geo.geobox import GeoBox, _norm_anchor
+    from odc.geo.geobox import GeoBox
 
+    # private helper: used directly only when it exists under this name (otherwise the from_bbox streams cover it)
+    _norm_anchor = getattr(GB, "_norm_anchor", None)
     return GB, GeoBox, _norm_anchor, geom, resxy_, xy_
 
 
@@ -172,6 +192,43 @@ def bbox_oracle(R: Run, gb, bb, rxy, snap, tol: F, slack_rel: F, case, prefix: s
     grid_oracle(R, l, r, rx, None if snap is None else snap[0], tol, F(A.c), int(nx), sc, key_prefix=f"{prefix}-x", extra=case)
     sc = max(abs(b), abs(t), abs(ry)) * slack_rel
     grid_oracle(R, b, t, ry, None if snap is None else snap[1], tol, F(A.f), int(ny), sc, key_prefix=f"{prefix}-y", extra=case)
+    accessor_oracle(R, gb, bb, rxy, snap, tol, slack_rel, case, prefix)
+
+
+def accessor_oracle(R: Run, gb, bb, rxy, snap, tol: F, slack_rel: F, case, prefix: str):
+    """the same guarantees read off the public accessors of the returned object (Props/C08C02.lean): `.resolution` is the
+    requested one, `.boundingbox` covers the region up to tol and exceeds it by at most a pixel (+tol), `.alignment` is
+    the anchor fraction times the pixel size (circular distance on the float stream)"""
+    rx, ry = rxy
+    l, b, r, t = bb
+    try:
+        rs, B = gb.resolution, gb.boundingbox
+        al = gb.alignment if snap is not None else None
+    except Exception as ex:  # pylint: disable=broad-except
+        R.oracle(False, f"{prefix}-accessor-raises", case, repr(ex), sig="accessor")
+        return
+    R.oracle(F(rs.x) == rx and F(rs.y) == ry, f"{prefix}-resolution-accessor", case,
+             f".resolution = ({rs.x!r},{rs.y!r}), requested ({float(rx)!r},{float(ry)!r})", sig="accessor-resolution")
+    ax, ay = abs(rx), abs(ry)
+    ex_, ey_ = max(abs(l), abs(r), ax) * slack_rel, max(abs(b), abs(t), ay) * slack_rel
+    Bl, Bb, Br, Bt = F(B.left), F(B.bottom), F(B.right), F(B.top)
+    # the accessor computes the far edge as fl(tx + n*res): a few ulps of the coordinates even when from_bbox itself is exact
+    ex_ += max(abs(Bl), abs(Br)) * ULP
+    ey_ += max(abs(Bb), abs(Bt)) * ULP
+    ok = (Bl <= l + tol * ax + ex_ and r - tol * ax - ex_ <= Br and Bb <= b + tol * ay + ey_ and t - tol * ay - ey_ <= Bt
+          and l - Bl <= ax * (1 + tol) + ex_ and Br - r <= ax * (1 + tol) + ex_
+          and b - Bb <= ay * (1 + tol) + ey_ and Bt - t <= ay * (1 + tol) + ey_)
+    R.oracle(ok, f"{prefix}-boundingbox-accessor", case,
+             f".boundingbox = {tuple(B.bbox)} for region {tuple(map(float, bb))}, pixel ({float(rx)!r},{float(ry)!r}), tol {float(tol)!r}",
+             sig="accessor-boundingbox")
+    if al is not None:
+        def circ(a, want, m, e):
+            d = (F(a) - want) % m
+            return min(d, m - d) <= e and (slack_rel > 0 or F(a) == want)
+        ok = circ(al.x, snap[0] * ax, ax, ex_) and circ(al.y, snap[1] * ay, ay, ey_)
+        R.oracle(ok, f"{prefix}-alignment-accessor", case,
+                 f".alignment = ({al.x!r},{al.y!r}) but anchor*pixel = ({float(snap[0] * ax)!r},{float(snap[1] * ay)!r})",
+                 sig="accessor-alignment")
 
 
 ULP = F(1, 2**50)      # a few ulps, relative: the only error a correctly rounded span/shape may carry
@@ -478,6 +535,51 @@ def sec_utm_shortcut(R: Run):
         bbox_oracle(R, g, tuple(F(v) for v in env), (F(resv), F(-resv)), anch.snap(tight), F(tolf), F(1, 10**9), case, "from-bbox-utm-shortcut")
 
 
+class UtmHook:
+    """substitute the projection behind crs='utm…' by the affine map `Af` reporting CRS `crs_name`, at the two public
+    methods the branch can go through (BoundingBox.to_crs, and Geometry.to_crs for a 'utm…' target); counts the calls so
+    that a code path that reaches pyproj some other way is noticed (the stream is then skipped with a note, not judged)"""
+
+    def __init__(self, Af, crs_name):
+        from odc.geo.geom import BoundingBox, Geometry
+        self.BB, self.G, self.Af, self.crs_name, self.calls = BoundingBox, Geometry, Af, crs_name, 0
+        self.orig_bb, self.orig_g = BoundingBox.to_crs, Geometry.to_crs
+
+    def _map(self, x, y):
+        Af = self.Af
+        return (Af[0] * x + Af[1] * y + Af[2], Af[3] * x + Af[4] * y + Af[5])
+
+    def __enter__(self):
+        hook = self
+
+        def bb_to_crs(self_, crs, **kw):
+            hook.calls += 1
+            pts_ = [hook._map(x, y) for x, y in self_.polygon.exterior.points[:4]]
+            xs, ys = [p[0] for p in pts_], [p[1] for p in pts_]
+            return hook.BB(min(xs), min(ys), max(xs), max(ys), crs=hook.crs_name)
+
+        def g_to_crs(self_, crs, *a, **kw):
+            if isinstance(crs, str) and crs.lower().startswith("utm"):
+                from odc.geo import geom as _geom
+                hook.calls += 1
+                return _geom.polygon([hook._map(x, y) for x, y in self_.exterior.points], hook.crs_name)
+            return hook.orig_g(self_, crs, *a, **kw)
+
+        self.BB.to_crs, self.G.to_crs = bb_to_crs, g_to_crs
+        return self
+
+    def __exit__(self, *exc):
+        self.BB.to_crs, self.G.to_crs = self.orig_bb, self.orig_g
+        return False
+
+
+def hook_bypassed_note(R: Run, what: str):
+    msg = f"{what}: the projection hook was not reached (crs='utm…' no longer goes through BoundingBox.to_crs / Geometry.to_crs); stream skipped"
+    if msg not in R.notes:
+        R.notes.append(msg)
+    R.count("hook-bypassed:" + what)
+
+
 def sec_utm_branch_exact(R: Run):
     """the crs='utm' branch of from_bbox (_norm_bbox) with the projection substituted from the harness by a rotated dyadic
     affine map (BoundingBox.to_crs is replaced for the duration of the call), so that the branch -- project the four
@@ -516,30 +618,428 @@ def sec_utm_branch_exact(R: Run):
             continue
         Af = [float(v) for v in Av]
 
-        def fake_to_crs(self, crs, **kw):
-            pts_ = [(Af[0] * x + Af[1] * y + Af[2], Af[3] * x + Af[4] * y + Af[5]) for x, y in self.polygon.exterior.points[:4]]
-            xs, ys = [p[0] for p in pts_], [p[1] for p in pts_]
-            return BoundingBox(min(xs), min(ys), max(xs), max(ys), crs="epsg:32755")
-
         out = []
 
         def f():
-            BoundingBox.to_crs = fake_to_crs
-            try:
+            with UtmHook(Af, "epsg:32755") as hk:
                 g = GeoBox.from_bbox((float(l), float(b), float(r), float(t)), "utm", tight=tight, shape=shape,
                                      resolution=None if mode == "shape" else resxy_(float(rx), float(ry)),
                                      anchor=anch.py(GB, xy_), tol=float(tol))
-            finally:
-                BoundingBox.to_crs = orig
+            if hk.calls == 0:
+                return "HOOK-BYPASSED"
             out.append(g)
             return gb_s(g)
 
         line = (f"c08 bboxutm {frac_s(l)} {frac_s(b)} {frac_s(r)} {frac_s(t)} {';'.join(frac_s(v) for v in Av)} {bool_s(tight)} "
                 f"{shape_tok(shape)} {res_tok(None if mode == 'shape' else (rx, ry))} {anch.tok()} {frac_s(tol)}")
-        R.corr(line, f, sig=f"bboxutm|{mode}|{'float' if sn is None else 'snap'}")
+        o_ = guarded(f)
+        if o_ == "HOOK-BYPASSED":
+            hook_bypassed_note(R, "utm-branch")
+            continue
+        R.corr(line, lambda: o_, sig=f"bboxutm|{mode}|{'float' if sn is None else 'snap'}")
         if out and mode == "res":
             bbox_oracle(R, out[0], env, (rx, ry), sn, tol, F(0), {"fn": "GeoBox.from_bbox(crs='utm')", "line": line}, "from-bbox-utm-branch")
     assert BoundingBox.to_crs is orig
+
+
+# ------------------------------------------------------------------ public argument forms (Model/C08Args.lean)
+CRS_CODES = {0: "epsg:4326", 1: "epsg:3857", 2: "epsg:32755", 3: "epsg:3577"}
+EPSG_TO_CODE = {4326: 0, 3857: 1, 32755: 2, 3577: 3}
+
+
+def crs_code(crs) -> str:
+    if crs is None:
+        return "NOCRS"
+    return str(EPSG_TO_CODE.get(crs.epsg, f"epsg{crs.epsg}"))
+
+
+def sec_forms(R: Run):
+    """every public spelling of the arguments of GeoBox.from_bbox / from_geopolygon: region as tuple / list / BoundingBox
+    with and without CRS / wrong length; crs None / '' / 'utm*' (projection substituted by a dyadic affine) / string / CRS
+    object / epsg int; shape None / int / float / bool / numpy float64 / Shape2d / XY / tuple / list / float pairs
+    (int() truncation) / str of digits / wrong length / numpy integer / ndarray; resolution None / int / float / bool /
+    Resolution / tuple / XY / numpy float32 / numpy int; anchor every accepted kind plus unknown hashable / unhashable
+    values.  Dyadic operands with power-of-two pixels (every float operation exact): result (shape, affine, reported CRS)
+    or exception kind compared with the Lean model `fromBboxCrs` / `fromGeopolygonArgs`; on accepted calls the property
+    predicates are evaluated on the real result against the values the spelling stands for."""
+    import numpy as np
+    GB, GeoBox, _norm_anchor, geom, resxy_, xy_ = _import()
+    from odc.geo.crs import CRS as OCRS
+    from odc.geo.geom import BoundingBox
+    from odc.geo.types import Resolution, Unset, shape_, wh_
+    rng = R.rng
+    orig_to_crs = BoundingBox.to_crs
+    IDA = "1;0;0;0;1;0"
+
+    def rnd_anchor_form():
+        r = rng.random()
+        if r < 0.04:
+            v = rng.choice(["x", None, (0, 0), np.float32(0.5), "CENTER", "Edge", b"edge"])
+            return v, "k", "bad", None
+        if r < 0.07:
+            return rng.choice([[0, 0], {}, [0.5]]), "u", "bad", None
+        if r < 0.2:
+            b_ = rng.choice([True, False])
+            return b_, f"n:{int(b_)}", "bool", (F(int(b_)), F(int(b_)))
+        if r < 0.27:
+            v = F(rng.randint(0, 7), 8)
+            return np.float64(float(v)), f"n:{frac_s(v)}", "np.float64", (v, v)
+        a = rnd_anchor(rng, 3)
+        return a.py(GB, xy_), a.tok(), a.kind, a.snap(False)
+
+    def rnd_shape_form(ny, nx):
+        """(python value, token, tag, normalised: ('num', q) | ('yx', ny, nx) | 'ERR' | None)"""
+        k = rng.choice(["none", "none", "int", "float", "bool", "np.float64", "Shape2d", "wh_", "XY", "XYf", "tuple", "list",
+                        "tuplef", "str", "len1", "len3", "np.int64", "ndarray", "neg", "zero", "half", "negnum", "dict"])
+        n = max(nx, ny)
+        if k == "none":
+            return None, "N", k, None
+        if k == "int":
+            return n, f"n:{n}", k, ("num", F(n))
+        if k == "float":
+            return float(n), f"n:{n}", k, ("num", F(n))
+        if k == "bool":
+            return True, "n:1", k, ("num", F(1))
+        if k == "np.float64":
+            return np.float64(n), f"n:{n}", k, ("num", F(n))
+        if k == "half":
+            return 0.5, "n:1/2", k, ("num", F(1, 2))
+        if k == "negnum":
+            return -n, f"n:{-n}", k, ("num", F(-n))
+        if k == "zero":
+            z = rng.choice([0, 0.0, False])
+            return z, "n:0", k, ("num", F(0))
+        if k == "Shape2d":
+            return shape_((ny, nx)), f"s2:{ny};{nx}", k, ("yx", ny, nx)
+        if k == "wh_":
+            return wh_(nx, ny), f"s2:{ny};{nx}", k, ("yx", ny, nx)
+        if k == "XY":
+            return xy_(nx, ny), f"xy:{nx};{ny}", k, ("yx", ny, nx)
+        if k == "XYf":
+            fx, fy = F(rng.randint(0, 7), 8), F(rng.randint(0, 7), 8)
+            return xy_(float(nx + fx), float(ny + fy)), f"xy:{frac_s(nx + fx)};{frac_s(ny + fy)}", k, ("yx", ny, nx)
+        if k == "tuple":
+            return (ny, nx), f"q:[{ny},{nx}]", k, ("yx", ny, nx)
+        if k == "list":
+            return [ny, nx], f"q:[{ny},{nx}]", k, ("yx", ny, nx)
+        if k == "tuplef":
+            fx, fy = F(rng.randint(0, 7), 8), F(rng.randint(0, 7), 8)
+            sg = rng.choice([1, 1, -1])
+            return ((float(sg * (ny + fy)), float(nx + fx)), f"q:[{frac_s(sg * (ny + fy))},{frac_s(nx + fx)}]", k,
+                    ("yx", sg * ny, nx))
+        if k == "str" and ny < 10 and nx < 10:
+            return f"{ny}{nx}", f"q:[{ny},{nx}]", k, ("yx", ny, nx)      # a str is a Sequence: map(int, "24") == (2, 4)
+        if k == "len1":
+            return (ny,), f"q:[{ny}]", k, "ERR"
+        if k == "len3":
+            return (ny, nx, 1), f"q:[{ny},{nx},1]", k, "ERR"
+        if k == "np.int64":
+            return np.int64(n), "o", k, "ERR"
+        if k == "ndarray":
+            return np.asarray([ny, nx]), "o", k, "ERR"
+        if k == "dict":
+            return {ny: nx}, "o", k, "ERR"
+        if k == "neg":
+            return (-ny, nx), f"q:[{-ny},{nx}]", k, ("yx", -ny, nx)
+        return None, "N", "none", None
+
+    def rnd_res_form(px, py):
+        k = rng.choice(["none"] * 9 + ["int", "negint", "float", "float", "bool", "np.float64", "np.float64neg", "resxy", "resxy", "resyx",
+                                       "Resolution1", "ResolutionNeg", "res_", "res_neg", "tuple", "XY", "np.float32", "np.int64", "str",
+                                       "negfloat", "negfloat", "zero"])
+        if k == "none":
+            return None, "N", k, None
+        if k == "int":
+            v = max(1, int(px))
+            return v, f"n:{v}", k, (F(v), F(-v))
+        if k == "negint":
+            v = -max(1, int(px))
+            return v, f"n:{v}", k, (F(v), F(-v))
+        if k == "np.float64neg":
+            return np.float64(float(-px)), f"n:{frac_s(-px)}", k, (-px, px)
+        if k == "resyx":
+            from odc.geo import resyx_
+            sx, sy = rng.choice([1, -1]), rng.choice([1, -1])
+            return resyx_(float(sy * py), float(sx * px)), f"r:{frac_s(sx * px)};{frac_s(sy * py)}", k, (sx * px, sy * py)
+        if k == "ResolutionNeg":
+            return Resolution(float(-px)), f"r:{frac_s(-px)};{frac_s(px)}", k, (-px, px)
+        if k == "res_neg":
+            from odc.geo import res_
+            return res_(float(-px)), f"r:{frac_s(-px)};{frac_s(px)}", k, (-px, px)
+        if k == "float":
+            return float(px), f"n:{frac_s(px)}", k, (px, -px)
+        if k == "negfloat":
+            return float(-px), f"n:{frac_s(-px)}", k, (-px, px)
+        if k == "zero":
+            return 0.0, "n:0", k, (F(0), F(0))
+        if k == "bool":
+            return True, "n:1", k, (F(1), F(-1))
+        if k == "np.float64":
+            return np.float64(float(px)), f"n:{frac_s(px)}", k, (px, -px)
+        if k == "resxy":
+            sx, sy = rng.choice([1, -1]), rng.choice([1, -1])
+            return resxy_(float(sx * px), float(sy * py)), f"r:{frac_s(sx * px)};{frac_s(sy * py)}", k, (sx * px, sy * py)
+        if k == "Resolution1":
+            return Resolution(float(px)), f"r:{frac_s(px)};{frac_s(-px)}", k, (px, -px)
+        if k == "res_":
+            from odc.geo import res_
+            return res_(float(px)), f"r:{frac_s(px)};{frac_s(-px)}", k, (px, -px)
+        if k == "tuple":
+            return (float(px), float(-py)), "o", k, "ERR"
+        if k == "XY":
+            return xy_(float(px), float(-py)), "o", k, "ERR"
+        if k == "np.float32":
+            return np.float32(float(px)), "o", k, "ERR"
+        if k == "np.int64":
+            return np.int64(1), "o", k, "ERR"
+        return "1", "o", "str", "ERR"
+
+    n_ok = n_err = 0
+    for _ in range(R.pick(1500, 15000)):
+        px, py = F(2) ** rng.randint(-1, 1), F(2) ** rng.randint(-1, 1)
+        nx0, ny0 = 2 ** rng.randint(0, 3), 2 ** rng.randint(0, 3)
+        l, b = F(rng.randint(-32, 32), 4), F(rng.randint(-32, 32), 4)
+        r, t = l + nx0 * px, b + ny0 * py
+        if rng.random() < 0.05:
+            t = b            # zero height: bbox.aspect divides by zero for a number shape
+        vals = [l, b, r, t]
+        a_py, a_tok, a_tag, snap0 = rnd_anchor_form()
+        s_py, s_tok, s_tag, s_norm = rnd_shape_form(ny0 * rng.choice([1, 1, 2]), nx0 * rng.choice([1, 1, 2]))
+        r_py, r_tok, r_tag, r_norm = rnd_res_form(px, py)
+        tight = rng.random() < 0.15
+        tol = rng.choice([TOL2, F(1, 128), F(0)])
+        # region / crs forms
+        rk = rng.choice(["tuple", "tuple", "list", "bbox-nocrs", "bbox-crs", "bbox-crs"] * 4 + ["len3", "len5", "len0"])
+        ck = rng.choice(["none", "empty", "utm", "UTM-N", "utmost", "str", "str", "CRS", "epsg-int"])
+        ccode = rng.choice([1, 2, 3])
+        crs_py = {"none": None, "empty": "", "utm": "utm", "UTM-N": "UTM-N", "utmost": "utmost", "str": CRS_CODES[ccode],
+                  "CRS": OCRS(CRS_CODES[ccode]), "epsg-int": int(CRS_CODES[ccode].split(":")[1])}[ck]
+        c_tok = {"none": "N", "empty": "F", "utm": "U", "UTM-N": "U", "utmost": "U"}.get(ck, f"c:{ccode}")
+        bcode = rng.choice([1, 2, 3])
+        fvals = [float(v) for v in vals]
+        if rk in ("tuple", "list"):
+            reg_py = tuple(fvals) if rk == "tuple" else list(fvals)
+            reg_tok = "t:" + list_s(vals, frac_s)
+        elif rk == "bbox-nocrs":
+            reg_py, reg_tok = BoundingBox(*fvals, crs=None), f"b:{list_s(vals, frac_s)}:N"
+        elif rk == "bbox-crs":
+            reg_py, reg_tok = BoundingBox(*fvals, crs=CRS_CODES[bcode]), f"b:{list_s(vals, frac_s)}:{bcode}"
+        else:
+            sub = {"len3": vals[:3], "len5": vals + [F(1)], "len0": []}[rk]
+            reg_py, reg_tok = tuple(float(v) for v in sub), "t:" + list_s(sub, frac_s)
+        is_utm = c_tok == "U" and rk != "bbox-crs"
+        Av = [F(rng.randint(-16, 16), 8) * 64, F(rng.randint(-16, 16), 8) * 64, F(rng.randint(-64, 64)),
+              F(rng.randint(-16, 16), 8) * 64, F(rng.randint(-16, 16), 8) * 64, F(rng.randint(-64, 64))]
+        if Av[0] * Av[4] - Av[1] * Av[3] == 0:
+            continue
+        Af = [float(v) for v in Av]
+        ucode = rng.choice([2, 3])
+
+        # what the spelling stands for (independent normalisation, for the exactness guard and the property oracle)
+        if rk in ("len3", "len5", "len0"):
+            bbn = None
+        elif is_utm:
+            pc = [(Av[0] * x + Av[1] * y + Av[2], Av[3] * x + Av[4] * y + Av[5]) for x, y in ((l, b), (l, t), (r, t), (r, b))]
+            bbn = (min(p[0] for p in pc), min(p[1] for p in pc), max(p[0] for p in pc), max(p[1] for p in pc))
+        else:
+            bbn = (l, b, r, t)
+        want_crs = (bcode if rk == "bbox-crs" else None if bbn is None else ucode if is_utm
+                    else 0 if ck in ("none", "empty") else ccode)
+        snap = None if (tight or snap0 is None) else snap0
+        branch, rxy, shp = None, None, None
+        if a_tag != "bad" and bbn is not None:
+            sn_, rn_ = s_norm, r_norm
+            if isinstance(sn_, tuple) and sn_[0] == "num":
+                q = sn_[1]
+                if bbn[3] - bbn[1] == 0 or q == 0:
+                    branch = "err"
+                else:
+                    rr = (bbn[2] - bbn[0]) / q if (bbn[2] - bbn[0]) / (bbn[3] - bbn[1]) > 1 else (bbn[3] - bbn[1]) / q
+                    branch, rxy = "res", (rr, -rr)
+            elif rn_ is not None:
+                branch, rxy = ("err", None) if rn_ == "ERR" else ("res", rn_)
+            elif sn_ is None or sn_ == "ERR":
+                branch = "err"
+            else:
+                branch, shp = "shape", (sn_[1], sn_[2])
+        exact = True
+        if branch == "res" and rxy[0] != 0 and rxy[1] != 0:
+            exact = (axis_exact(bbn[0], bbn[2], rxy[0], None if snap is None else snap[0])
+                     and axis_exact(bbn[1], bbn[3], rxy[1], None if snap is None else snap[1]))
+        elif branch == "shape" and shp[0] != 0 and shp[1] != 0:
+            qx, qy = (bbn[2] - bbn[0]) / shp[1], -(bbn[3] - bbn[1]) / shp[0]
+            exact = isx(qx) and isx(qy) and (qx == 0 or qy == 0 or (
+                axis_exact(bbn[0], bbn[2], qx, None if snap is None else snap[0])
+                and axis_exact(bbn[1], bbn[3], qy, None if snap is None else snap[1])))
+        if not exact:
+            R.count("forms:skipped-inexact")
+            continue
+        out = []
+
+        def f():
+            if c_tok == "U":
+                with UtmHook(Af, CRS_CODES[ucode]) as hk:
+                    g = GeoBox.from_bbox(reg_py, crs_py, tight=tight, shape=s_py, resolution=r_py, anchor=a_py, tol=float(tol))
+                if is_utm and hk.calls == 0:
+                    return "HOOK-BYPASSED"
+            else:
+                g = GeoBox.from_bbox(reg_py, crs_py, tight=tight, shape=s_py, resolution=r_py, anchor=a_py, tol=float(tol))
+            out.append(g)
+            return f"{gb_s(g)} {crs_code(g.crs)}"
+
+        line = (f"c08 forms {reg_tok} {c_tok} {';'.join(frac_s(v) for v in Av) if c_tok == 'U' else IDA} {ucode} {bool_s(tight)} "
+                f"{s_tok} {r_tok} {a_tok} {frac_s(tol)}")
+        o_ = guarded(f)
+        if o_ == "HOOK-BYPASSED":
+            hook_bypassed_note(R, "forms-utm")
+            continue
+        R.corr(line, lambda: o_, sig=f"forms|{branch}|region={rk}|crs={'utm' if c_tok == 'U' else ck}")
+        for dim, tag in (("shape", s_tag), ("res", r_tag), ("anchor", a_tag)):
+            R.count(f"forms:{dim}={tag}|{branch}")
+        case = {"fn": "GeoBox.from_bbox (argument forms)", "line": line,
+                "python": repr((reg_py, crs_py, dict(tight=tight, shape=s_py, resolution=r_py, anchor=a_py, tol=float(tol))))}
+        if not out:
+            n_err += 1
+            # a call that a well-formed spelling stands for must not be rejected
+            wellformed = (branch == "res" and rxy[0] != 0 and rxy[1] != 0 and bbn[0] <= bbn[2] and bbn[1] <= bbn[3]
+                          and (snap is None or all(0 <= v < 1 for v in snap)))
+            R.oracle(not wellformed, "from-bbox-forms-rejects-wellformed-call", case,
+                     "a region / resolution / anchor spelling the documentation allows was rejected", sig="forms-accept")
+            continue
+        n_ok += 1
+        g = out[0]
+        R.oracle(crs_code(g.crs) == str(want_crs), "from-bbox-forms-wrong-crs", case,
+                 f"result reports CRS {g.crs} but the region/crs arguments stand for {CRS_CODES.get(want_crs)}", sig=f"forms-crs|{rk}|{ck}")
+        valid = bbn is not None and bbn[0] <= bbn[2] and bbn[1] <= bbn[3] and (snap is None or all(0 <= v < 1 for v in snap))
+        if branch == "res" and valid and rxy[0] != 0 and rxy[1] != 0:
+            bbox_oracle(R, g, bbn, rxy, snap, tol, F(0), case, "from-bbox-forms-res")
+            # the same call in its canonical object spelling: BoundingBox with CRS, Resolution object, XY / enum anchor
+            can_anchor = GB.AnchorEnum.FLOATING if snap is None else xy_(float(snap[0]), float(snap[1]))
+            can = guarded(lambda: gb_s(GeoBox.from_bbox(BoundingBox(*[float(v) for v in bbn], crs=CRS_CODES[want_crs]),
+                                                        resolution=resxy_(float(rxy[0]), float(rxy[1])), anchor=can_anchor,
+                                                        tight=tight, tol=float(tol))))
+            R.oracle(can == gb_s(g), "from-bbox-forms-differs-from-canonical-spelling", case,
+                     f"this spelling gives {gb_s(g)}, the canonical spelling (BoundingBox with CRS, resxy_({float(rxy[0])}, {float(rxy[1])}), "
+                     f"anchor {can_anchor}) gives {can}", sig=f"forms-canonical|res={r_tag}|shape={s_tag}")
+        elif branch == "shape" and valid and shp[0] > 0 and shp[1] > 0 and bbn[0] < bbn[2] and bbn[1] < bbn[3]:
+            shape_oracle(R, g, bbn, shp, snap, F(0), case, "from-bbox-forms-shape")
+            can_anchor = GB.AnchorEnum.FLOATING if snap is None else xy_(float(snap[0]), float(snap[1]))
+            can = guarded(lambda: gb_s(GeoBox.from_bbox(BoundingBox(*[float(v) for v in bbn], crs=CRS_CODES[want_crs]),
+                                                        shape=wh_(shp[1], shp[0]), anchor=can_anchor, tight=tight, tol=float(tol))))
+            R.oracle(can == gb_s(g), "from-bbox-forms-differs-from-canonical-spelling", case,
+                     f"this spelling gives {gb_s(g)}, the canonical spelling (BoundingBox with CRS, Shape2d {shp}, anchor {can_anchor}) gives {can}",
+                     sig=f"forms-canonical|shape={s_tag}")
+    R.count("forms:accepted", n_ok)
+    R.count("forms:rejected", n_err)
+    assert BoundingBox.to_crs is orig_to_crs
+
+    # ---- from_geopolygon: crs None / Unset() / same / other (projection substituted), polygons with and without CRS
+    from odc.geo.geom import Geometry
+    orig_geom_to_crs = Geometry.to_crs
+    for _ in range(R.pick(500, 5000)):
+        px, py = F(2) ** rng.randint(-1, 1), F(2) ** rng.randint(-1, 1)
+        k = rng.randint(3, 5)
+        pts = [(F(rng.randint(-32, 32), 2), F(rng.randint(-32, 32), 2)) for _ in range(k)]
+        if len({p[0] for p in pts}) < 2 or len({p[1] for p in pts}) < 2:
+            continue
+        pcode = rng.choice([None, None, 0, 1, 2])
+        ck = rng.choice(["none", "none", "unset", "given", "given", "same"])
+        if ck == "same" and pcode is None:
+            ck = "given"
+        ccode = pcode if ck == "same" else rng.choice([1, 2, 3])
+        Av = [F(rng.randint(-4, 4)), F(rng.randint(-4, 4)), F(rng.randint(-64, 64)), F(rng.randint(-4, 4)), F(rng.randint(-4, 4)), F(rng.randint(-64, 64))]
+        if ck == "same":
+            Av = [F(1), F(0), F(0), F(0), F(1), F(0)]
+        if Av[0] * Av[4] - Av[1] * Av[3] == 0:
+            continue
+        Af = [float(v) for v in Av]
+        anch = rnd_anchor(rng, 2)
+        tight = rng.random() < 0.15
+        tol = rng.choice([TOL2, F(0)])
+        mode = rng.choice(["res", "res", "align", "align-nores", "shape"])
+        sx, sy = rng.choice([1, -1]), rng.choice([1, -1])
+        res = None if mode in ("shape", "align-nores") else (sx * px, sy * py)
+        shape = (2 ** rng.randint(0, 3), 2 ** rng.randint(0, 3)) if mode in ("shape", "align-nores") else None
+        align = (F(rng.randint(0, 1), 2) * px, F(rng.randint(0, 1), 2) * py) if mode.startswith("align") else None
+        if shape is not None:
+            # vertex bounds an exact multiple of the shape; projection (if any) an axis-aligned power-of-two scaling
+            x0, y0 = pts[0]
+            w, hgt = shape[1] * px, shape[0] * py
+            pts = [(x0, y0), (x0 + w, y0 + hgt)] + [(x0 + F(rng.randint(0, 4), 4) * w, y0 + F(rng.randint(0, 4), 4) * hgt) for _ in range(k - 2)]
+            if ck != "same":
+                Av = [rng.choice([-1, 1]) * F(2) ** rng.randint(-1, 2), F(0), F(rng.randint(-64, 64)),
+                      F(0), rng.choice([-1, 1]) * F(2) ** rng.randint(-1, 2), F(rng.randint(-64, 64))]
+                Af = [float(v) for v in Av]
+        projected = ck in ("given", "same") and pcode is not None
+        ppts = [(Av[0] * x + Av[1] * y + Av[2], Av[3] * x + Av[4] * y + Av[5]) for x, y in pts] if projected else pts
+        bbn = (min(p[0] for p in ppts), min(p[1] for p in ppts), max(p[0] for p in ppts), max(p[1] for p in ppts))
+        if align is not None and align != (0, 0) and res is not None:
+            sn = None if tight else (align[0] / abs(res[0]), align[1] / abs(res[1]))
+        elif align is not None and align == (0, 0):
+            sn = None if tight else (F(0), F(0))
+        else:
+            sn = anch.snap(tight)
+        if res is not None:
+            ok = axis_exact(bbn[0], bbn[2], res[0], None if sn is None else sn[0]) and axis_exact(bbn[1], bbn[3], res[1], None if sn is None else sn[1])
+        else:
+            qx, qy = (bbn[2] - bbn[0]) / shape[1], -(bbn[3] - bbn[1]) / shape[0]
+            ok = isx(qx) and isx(qy) and axis_exact(bbn[0], bbn[2], qx, None if sn is None else sn[0]) and axis_exact(
+                bbn[1], bbn[3], qy, None if sn is None else sn[1])
+        if not ok:
+            R.count("polyargs:skipped-inexact")
+            continue
+        out = []
+
+        gcalls = [0]
+
+        def fake_geom_to_crs(self, crs, *a, **kw):
+            gcalls[0] += 1
+            if self.crs is None:
+                raise ValueError("Cannot project geometries without CRS")
+            return geom.polygon([(Af[0] * x + Af[1] * y + Af[2], Af[3] * x + Af[4] * y + Af[5]) for x, y in self.exterior.points], CRS_CODES[ccode])
+
+        def fp():
+            poly = geom.polygon([(float(x), float(y)) for x, y in pts] + [(float(pts[0][0]), float(pts[0][1]))],
+                                None if pcode is None else CRS_CODES[pcode])
+            kw = dict(shape=shape, tight=tight, tol=float(tol), anchor=anch.py(GB, xy_))
+            if align is not None:
+                kw["align"] = xy_(float(align[0]), float(align[1]))
+            crs_arg = None if ck == "none" else Unset() if ck == "unset" else CRS_CODES[ccode]
+            if ck != "same":
+                Geometry.to_crs = fake_geom_to_crs
+            res_py = None if res is None else resxy_(float(res[0]), float(res[1]))
+            if res is not None and res[1] == -res[0] and rng.random() < 0.7:
+                # the bare-number spelling of a square north-up (r > 0) / mirrored (r < 0) pixel
+                res_py = rng.choice([float(res[0]), int(res[0]) if res[0].denominator == 1 else float(res[0]), np.float64(float(res[0]))])
+            try:
+                if rng.random() < 0.5:
+                    g = GeoBox.from_geopolygon(poly, res_py, crs_arg, **kw)
+                else:
+                    g = GeoBox.from_geopolygon(poly, resolution=res_py, crs=crs_arg, **kw)
+            finally:
+                Geometry.to_crs = orig_geom_to_crs
+            if ck == "given" and gcalls[0] == 0:
+                return "HOOK-BYPASSED"
+            out.append(g)
+            return f"{gb_s(g)} {crs_code(g.crs)}"
+
+        line = (f"c08 polyargs {list_s(pts, lambda q: frac_s(q[0]) + ';' + frac_s(q[1]))} {'N' if pcode is None else pcode} "
+                f"{'N' if ck in ('none', 'unset') else 'c:' + str(ccode)} {';'.join(frac_s(v) for v in Av)} {res_tok(res)} "
+                f"{'N' if align is None else frac_s(align[0]) + ';' + frac_s(align[1])} {shape_tok(shape)} {bool_s(tight)} {anch.tok()} {frac_s(tol)}")
+        o_ = guarded(fp)
+        if o_ == "HOOK-BYPASSED":
+            hook_bypassed_note(R, "polyargs-crs")
+            continue
+        R.corr(line, lambda: o_, sig=f"polyargs|poly-crs={'none' if pcode is None else 'some'}|crs={ck}|{mode}")
+        case = {"fn": "GeoBox.from_geopolygon (crs argument)", "line": line}
+        if out:
+            g = out[0]
+            want_crs = (0 if pcode is None else pcode) if ck in ("none", "unset") else ccode
+            R.oracle(crs_code(g.crs) == str(want_crs), "from-geopolygon-args-wrong-crs", case,
+                     f"result reports CRS {g.crs}, expected {CRS_CODES.get(want_crs)}", sig=f"polyargs-crs|{ck}")
+            if res is not None and (sn is None or all(0 <= v < 1 for v in sn)):
+                bbox_oracle(R, g, bbn, res, sn, tol, F(0), case, "from-geopolygon-args")
+    assert Geometry.to_crs is orig_geom_to_crs
 
 
 def run(R: Run):
@@ -556,11 +1056,17 @@ def run(R: Run):
                + [Anch("e", n) for n in ("edge", "center", "floating")]
                + [Anch("n", v) for v in (F(0), F(1, 2), F(1, 4), F(1), F(3, 8), F(-1, 2), F(127, 128))]
                + [Anch("x", v) for v in ((F(0), F(0)), (F(1, 2), F(1, 2)), (F(1, 4), F(3, 4)), (F(0), F(1, 2)))])
-    for a in anchors:
-        R.corr(f"c08 anchor {a.tok()}", lambda: anchor_s(_norm_anchor(a.py(GB, xy_))), sig=f"anchor|{a.kind}")
-    R.corr("c08 anchor n:0", lambda: anchor_s(_norm_anchor(0.0)), sig="anchor|n")
-    r = guarded(lambda: anchor_s(_norm_anchor("nonsense")))
-    R.oracle(r.startswith("ERR:"), "norm-anchor-accepts-unknown-name", {}, r, trivial=True)
+    if _norm_anchor is None:
+        R.notes.append("private helper geobox._norm_anchor not found: its direct stream is skipped (from_bbox / forms streams cover anchors)")
+    else:
+        # internal step: compared softly (a difference is a note, the public from_bbox streams decide)
+        a_lines = [f"c08 anchor {a.tok()}" for a in anchors] + ["c08 anchor n:0"]
+        a_real = [guarded(lambda: anchor_s(_norm_anchor(a.py(GB, xy_)))) for a in anchors] + [guarded(lambda: anchor_s(_norm_anchor(0.0)))]
+        a_model = run_driver("C08", a_lines)
+        R.count("anchor:private-helper-steps-compared", len(a_lines))
+        a_diff = [(l_, r_, m_) for l_, r_, m_ in zip(a_lines, a_real, a_model) if r_ != m_]
+        if a_diff:
+            R.notes.append("private _norm_anchor differs from the model's normAnchor (not a violation by itself): " + repr(a_diff[:3]))
 
     # ---------------- from_bbox
     def call(bb, tight, shape, res, anch: Anch, tol: F, tag: str, exact: bool, slack_rel: F):
@@ -582,6 +1088,20 @@ def run(R: Run):
         snap = anch.snap(tight)
         if exact:
             R.corr(line, f, sig=f"bbox|{tag}|{'float' if snap is None else 'snap'}|{'tight' if tight else ''}")
+            A_ = out[0].affine if out else None
+            if out and isx(F(A_.c) + out[0].shape[1] * F(A_.a)) and isx(F(A_.f) + out[0].shape[0] * F(A_.e)):
+                # the public accessors of the returned object against C02's model of them on the C08 model's result
+                def facc():
+                    g_ = out[0]
+                    try:
+                        al_ = g_.alignment
+                        al_s = f"{frac_s(al_.x)} {frac_s(al_.y)}"
+                    except ZeroDivisionError:
+                        al_s = "ERR:ZeroDivisionError"
+                    B_ = g_.boundingbox
+                    return f"{al_s} | {frac_s(B_.left)} {frac_s(B_.bottom)} {frac_s(B_.right)} {frac_s(B_.top)}"
+
+                R.corr(line.replace("c08 bbox ", "c08 bboxacc ", 1), facc, sig=f"bboxacc|{tag}|{'float' if snap is None else 'snap'}")
             want = ref_from_bbox(bb, tight, shape, res, snap, tol)
             if out or want != "ERR":
                 got = "ERR" if not out else (int(out[0].shape[0]), int(out[0].shape[1]), [F(float(v)) for v in tuple(out[0].affine)[:6]])
@@ -1078,6 +1598,7 @@ def run(R: Run):
             else:
                 call(bbF, tight, rng.randint(1, 5000), None, anch, F(tolf), "float-int-shape", False, F(1, 10**9))
     sec_utm_branch_exact(R)
+    sec_forms(R)
     sec_spelling(R)
     sec_cross_crs(R)
     sec_utm_shortcut(R)
